@@ -110,7 +110,10 @@ impl FromStr for Imm {
             } else {
                 match u32::from_str_radix(stripped, 16) {
                     #[allow(clippy::cast_possible_wrap)]
-                    Ok(i) => Ok(Imm((i as i32).wrapping_mul(mul))),
+                    Ok(i) if mul == 1 => Ok(Imm(i as i32)),
+                    // A negated literal must fit in 32 bits: -0x80000000 is the
+                    // smallest value, anything below is rejected.
+                    Ok(i) => i32::try_from(-i64::from(i)).map(Imm).map_err(|_| ()),
                     Err(_) => Err(()),
                 }
             }
@@ -120,7 +123,10 @@ impl FromStr for Imm {
             } else {
                 match u32::from_str_radix(stripped, 2) {
                     #[allow(clippy::cast_possible_wrap)]
-                    Ok(i) => Ok(Imm((i as i32).wrapping_mul(mul))),
+                    Ok(i) if mul == 1 => Ok(Imm(i as i32)),
+                    // A negated literal must fit in 32 bits: -0x80000000 is the
+                    // smallest value, anything below is rejected.
+                    Ok(i) => i32::try_from(-i64::from(i)).map(Imm).map_err(|_| ()),
                     Err(_) => Err(()),
                 }
             }
